@@ -10,6 +10,8 @@ package rtree
 //@ spec d2(p geom.Point, x float64, y float64) float64 = sq(p.X - x) + sq(p.Y - y)
 //@ spec clampF(v float64, lo float64, hi float64) float64 = v < lo ? lo : (v > hi ? hi : v)
 
+//@ pred hitB(b geom.Bounds, q geom.Bounds) = !(q.Max.X < b.Min.X || b.Max.X < q.Min.X) && !(q.Max.Y < b.Min.Y || b.Max.Y < q.Min.Y)
+
 //@ func dist
 //@   prop C12
 //@   mode real
@@ -21,6 +23,7 @@ package rtree
 //@   requires [nonnil] r1 != nil && r2 != nil
 //@   ensures [sound] result && validB(*r1) && validB(*r2) ==> inBox(*r1, goMax(r1.Min.X, r2.Min.X), goMax(r1.Min.Y, r2.Min.Y)) && inBox(*r2, goMax(r1.Min.X, r2.Min.X), goMax(r1.Min.Y, r2.Min.Y))
 //@   ensures [complete] (exists x float64, y float64 :: inBox(*r1, x, y) && inBox(*r2, x, y)) ==> result
+//@   ensures [hit] result <==> hitB(*r1, *r2)
 //@   modifies nothing
 
 //@ func containsPoint
@@ -141,14 +144,20 @@ package rtree
 //@   ensures [root] result0 == old(tree.root) && tree.root == old(tree.root) && tree.height == old(tree.height) && tree.size == old(tree.size) && tree.MinChildren == old(tree.MinChildren) && tree.MaxChildren == old(tree.MaxChildren)
 //@   ensures [split_sibling] result1 != nil ==> result1.level == result0.level && result1.leaf == result0.leaf
 //@   ensures [levels_kept] forall m *node :: m != nil && !fresh(m) ==> m.level == old(m.level) && m.leaf == old(m.leaf)
-//@   ensures [shape] kidsOK(result0) && (result1 != nil ==> kidsOK(result1))
+//@   ensures [shape] kidsOK(result0) && boxesOK(result0) && (result1 != nil ==> kidsOK(result1) && boxesOK(result1))
+
+//@ pred boxesOK(n *node) = forall i int :: 0 <= i && i < len(n.entries) ==> n.entries[i].bb != nil
+//@ spec envB(es []entry, k int) geom.Bounds decreases k = k <= 1 ? *es[0].bb : joinB(envB(es, k-1), *es[k-1].bb)
 
 //@ func (n *node) computeBoundingBox
 //@   prop C11
-//@   trusted step 1: the entries of a linked node carry non-nil boxes (shape invariant, not proved by govc)
-//@   requires [nonnil] n != nil
+//@   mode real
+//@   requires [nonnil] n != nil && boxesOK(n)
 //@   ensures [fresh] result != nil && fresh(result)
+//@   ensures [exact_envelope] len(n.entries) >= 1 ==> *result == envB(n.entries, len(n.entries))
 //@   modifies nothing
+//@   loop 1 `for i, e := range n.entries`
+//@     invariant #1 <= len(n.entries) && (#1 >= 1 ==> bb == envB(n.entries, #1))
 
 //@ func (tree *Rtree) insert
 //@   prop C11
@@ -283,7 +292,7 @@ package rtree
 //@   loop 1 `for _, e := range n.entries`
 //@     invariant len(dists) >= k && len(nearest) >= k && sortedF(dists, k) && (forall j int :: 0 <= j && j < k ==> dists[j] <= dists@0[j])
 //@   loop 2 `range branches`
-//@     invariant len(dists) >= k && len(nearest) >= k && sortedF(dists, k) && (forall j int :: 0 <= j && j < k ==> dists[j] <= dists@0[j]) && kidsWf(branches, n.level)
+//@     invariant len(dists) >= k && len(nearest) >= k && sortedF(dists, k) && (forall j int :: 0 <= j && j < k ==> dists[j] <= dists@0[j]) && kidsWf(branches, n.level) && len(branchDists) == len(branches) && sortedF(branchDists, len(branchDists))
 //@   assert_then [skip_only_beyond_kth] `if k > 0 && math.Sqrt(branchDists[i]) > dists[k-1]` k >= 1 && sqrt(branchDists[i]) > dists[k-1] && (forall j int :: i <= j && j < len(branchDists) ==> branchDists[j] >= branchDists[i])
 //@   assert_if_present [minmaxdist_pruning_only_for_k1] `branches = pruneEntries(p, branches, branchDists)` k <= 1
 //@   assert [children_wf] `range branches` kidsWf(branches, n.level)
@@ -298,3 +307,31 @@ package rtree
 //@   modifies nothing
 //@   loop 1 `for i := 0; i < k; i++`
 //@     invariant 0 <= i && i <= k && len(dists) == k && len(objs) == k && fresh(dists) && fresh(objs) && (forall j int :: 0 <= j && j < i ==> dists[j] == 1.7976931348623157e308)
+
+// ---- C11: SearchIntersect against a count over the subtree ----
+// cntE(n, k, q, lvl): number of leaf entries below the first k entries of n
+// whose boxes hit q (with multiplicity); the measure is lexicographic (lvl, k).
+//@ spec cntE(n *node, k int, q geom.Bounds, lvl int) int decreases lvl = k <= 0 ? 0 : cntE(n, k-1, q, lvl) + (hitB(*n.entries[k-1].bb, q) ? (lvl <= 1 ? 1 : cntE(n.entries[k-1].child, len(n.entries[k-1].child.entries), q, lvl-1)) : 0)
+
+//@ lemma hit_is_shared_point(b geom.Bounds, q geom.Bounds)
+//@   mode real
+//@   requires validB(b) && validB(q)
+//@   ensures hitB(b, q) <==> (exists x float64, y float64 :: inBox(b, x, y) && inBox(q, x, y))
+//@   using mention(inBox(b, goMax(b.Min.X, q.Min.X), goMax(b.Min.Y, q.Min.Y))), mention(inBox(q, goMax(b.Min.X, q.Min.X), goMax(b.Min.Y, q.Min.Y)))
+
+//@ func (tree *Rtree) searchIntersect
+//@   prop C11
+//@   mode real
+//@   requires [shape] n != nil && wfN(n, n.level) && bb != nil
+//@   ensures [count] fresh(result) && len(result) == cntE(n, len(n.entries), *bb, n.level)
+//@   modifies nothing
+//@   decreases n.level
+//@   loop 1 `for _, e := range n.entries`
+//@     invariant fresh(results) && #1 <= len(n.entries) && len(results) == cntE(n, #1, *bb, n.level)
+
+//@ func (tree *Rtree) SearchIntersect
+//@   prop C11
+//@   mode real
+//@   requires [shape] tree != nil && tree.root != nil && wfN(tree.root, tree.root.level) && bb != nil
+//@   ensures [count] len(result) == cntE(tree.root, len(tree.root.entries), *bb, tree.root.level)
+//@   modifies nothing
